@@ -42,7 +42,7 @@ META = {
                 note="Trusted: FakeNet (its deterministic behaviour is compared call by call with real loopback sockets by vf/env/fakenet_conf.py, reported in evidence); TLS is a pass-through raising OpenSSL's want-read/want-write."),
     "C10": dict(cat="fault_enumeration", eng="E1 over FakeNet", ref="3 (TCP group)",
                 tech="exhaustive single (quick) / up to triple (thorough) fault placement: every connection-level errno, TLS EOF, handshake abort at every send/recv/handshake call, peer close/RST/half-close at every step boundary",
-                text="Server side with victim + sibling connection, client side against a scripted peer (which may also die right after its answer, with the answer still unread, or die and reconnect from the very same address), plain and TLS, with and without a WireLog attached: service() must not raise, the victim must end cut off / aborted / removed-and-closed, the sibling's echo must complete.",
+                text="Server side with victim + sibling connection, client side against a scripted peer (which may also die right after its answer, with the answer still unread, or die and reconnect from the very same address), plain and TLS (the watched connection's handshake may first stay pending, so that faults and peer events also land there), with and without a WireLog attached: service() must not raise, the victim must end cut off / aborted / removed-and-closed, the sibling's echo must complete.",
                 note="'marked' accepts removal with the socket closed. Generic TLS protocol errors (certificate failure) are outside the property."),
     "C11": dict(cat="model_checking", eng="E2 BFS over FakeNet", ref="3 (TCP group)",
                 tech="explicit-state BFS over connect/handshake-pending/handshake-EOF/protocol-error/reset/receive-error/replace/port-taken/reopen/close event histories with socket-table invariant",
